@@ -144,7 +144,10 @@ func vfC10WantParse(eff vfc10.Cfg, cmds [][][]byte) (out []string) {
 				continue
 			}
 		}
-		if bypass {
+		// transaction brackets are handed to the sender whatever the database filter says (the
+		// sender absorbs them: they never reach the target as commands); a withheld EXEC would
+		// leave the sender inside the transaction
+		if bypass && name != "multi" && name != "exec" {
 			continue
 		}
 		na, rej, _ := vfc10.WantFilterCmdKey(eff, name, argv)
